@@ -497,6 +497,13 @@ impl<'a, 'tcx> Cx<'a, 'tcx> {
             Rvalue::Discriminant(p) => {
                 self.s.push_str("{\"k\":\"discr\",\"place\":");
                 self.place(p);
+                let pty = p.ty(&self.body.local_decls, tcx).ty;
+                self.s.push_str(",\"ty\":");
+                esc(&tys(pty), self.s);
+                if let ty::Adt(a, _) = pty.kind() {
+                    self.s.push_str(",\"adt\":");
+                    esc(&dps(tcx, a.did()), self.s);
+                }
                 self.s.push('}');
             }
             Rvalue::Aggregate(kind, fields) => {
